@@ -24,10 +24,10 @@ CORPUS = os.path.join(build.VERIF, 'corpus', 'c01')
 RUN_TIMEOUT = 30
 
 
-def run_exe(exe, timeout=RUN_TIMEOUT):
+def run_exe(exe, args=(), timeout=RUN_TIMEOUT):
     """(status, stdout, stderr) like ilexec.run, but keeps the output printed before a timeout"""
     env = dict(os.environ, ASAN_OPTIONS='detect_leaks=0:exitcode=99', UBSAN_OPTIONS='halt_on_error=1:exitcode=98')
-    p = subprocess.Popen([exe], stdin=subprocess.DEVNULL, stdout=subprocess.PIPE, stderr=subprocess.PIPE, env=env)
+    p = subprocess.Popen([exe] + list(args), stdin=subprocess.DEVNULL, stdout=subprocess.PIPE, stderr=subprocess.PIPE, env=env)
     try:
         out, err = p.communicate(timeout=timeout)
         return p.returncode, out, err
@@ -41,7 +41,8 @@ def run_exe(exe, timeout=RUN_TIMEOUT):
 # running one unit three ways
 
 class Stream:
-    """outcome of one build+run: kind in ok / compile-fail / abnormal"""
+    """outcome of one build+run: kind in ok / compile-fail / abnormal (the run stopped somewhere; it was restarted behind the
+    offending case, see run_all) / cproc-fail ...; segs: case number -> output lines; complete: cases whose end was reached"""
     __slots__ = ('kind', 'status', 'segs', 'complete', 'diag')
 
     def __init__(self, kind, status=None, out=b'', diag=''):
@@ -50,15 +51,37 @@ class Stream:
         cur = None
         for ln in out.split(b'\n'):
             if ln.startswith(b'#'):
-                if cur is not None:
+                if cur is not None and ln not in (b'#abort', b'#overflow'):
                     self.complete.add(cur)
-                cur = None if ln == b'#end' else int(ln[1:]) if ln[1:].isdigit() else None
+                cur = int(ln[1:]) if ln[1:].isdigit() else None
                 if cur is not None:
                     self.segs[cur] = []
             elif cur is not None and ln:
                 self.segs[cur].append(ln)
-        if kind == 'ok' and not out.rstrip().endswith(b'#end'):
-            self.kind = 'abnormal'
+
+
+def run_all(exe, ncases):
+    """run a unit's executable; when it stops inside case k (crash, sanitizer, timeout) restart it behind k.
+    -> (kind, status of the first run, concatenated output with '#abort' lines between the runs, stderr of the first run)"""
+    outs, first, start = [], None, 0
+    for _ in range(ncases + 1):
+        st, out, err = run_exe(exe, [str(start)] if start else [])
+        if first is None:
+            first = (st, err)
+        clean = isinstance(st, int) and 0 <= st < 64 and out.rstrip().endswith(b'#end')
+        outs.append(out)
+        if clean:
+            break
+        last = None
+        for ln in out.split(b'\n'):
+            if ln.startswith(b'#') and ln[1:].isdigit():
+                last = int(ln[1:])
+        outs.append(b'\n#abort\n')
+        if last is None or last + 1 >= ncases:
+            break
+        start = last + 1
+    kind = 'ok' if len(outs) == 1 else 'abnormal'
+    return kind, first[0], b''.join(outs), first[1].decode(errors='replace')[:600]
 
 
 def _write(p, data):
@@ -66,7 +89,7 @@ def _write(p, data):
         f.write(data)
 
 
-def run_cproc(src, d, target, name='u'):
+def run_cproc(src, d, target, name='u', ncases=1):
     """-> Stream; kind 'cproc-fail' (status, stderr) when the compiler does not exit 0"""
     r = fs.server('fs').compile(src, target=target, cpu_s=60)
     if r.status != 0:
@@ -85,12 +108,10 @@ def run_cproc(src, d, target, name='u'):
     ok, diag = ilexec.cc([cf], exe, extra=['-fno-sanitize-address-use-after-scope'])
     if not ok:
         return Stream('il2c-output-rejected', diag=diag[-600:])
-    st, out, err = run_exe(exe)
-    return Stream('ok' if st not in ('timeout',) and isinstance(st, int) and 0 <= st < 64 else 'abnormal', st, out,
-                  err.decode(errors='replace')[:600])
+    return Stream(*run_all(exe, ncases))
 
 
-def run_ref(src, d, compiler, cs, name='u'):
+def run_ref(src, d, compiler, cs, name='u', ncases=1):
     cf = os.path.join(d, '%s.%s.ref.c' % (name, compiler))
     _write(cf, src)
     exe = os.path.join(d, '%s.%s.exe' % (name, compiler))
@@ -98,8 +119,7 @@ def run_ref(src, d, compiler, cs, name='u'):
     p = subprocess.run(cmd, stdout=subprocess.PIPE, stderr=subprocess.STDOUT, timeout=900)
     if p.returncode != 0:
         return Stream('compile-fail', diag=p.stdout.decode(errors='replace')[-600:])
-    st, out, err = run_exe(exe)
-    return Stream('ok' if isinstance(st, int) and 0 <= st < 64 else 'abnormal', st, out, err.decode(errors='replace')[:600])
+    return Stream(*run_all(exe, ncases))
 
 
 class Verdict:
@@ -122,7 +142,7 @@ def evaluate(cases, d, target='x86_64-sysv', cs=True, extra_decl='', depth=0):
     src = G.build_unit(cases, extra_decl=extra_decl).encode()
     _seq[0] += 1
     name = 'u%d' % _seq[0]
-    sc = run_cproc(src, d, target, name)
+    sc = run_cproc(src, d, target, name, n)
 
     def split():
         if n == 1:
@@ -135,11 +155,11 @@ def evaluate(cases, d, target='x86_64-sysv', cs=True, extra_decl='', depth=0):
         if r is not None:
             return r
         # single case: consult the witnesses before blaming cproc
-        g, c = run_ref(src, d, 'gcc', cs, name), run_ref(src, d, 'clang', cs, name)
+        g, c = run_ref(src, d, 'gcc', cs, name, n), run_ref(src, d, 'clang', cs, name, n)
         if g.kind != 'ok' or c.kind != 'ok':
             return [Verdict('ambiguous', 'cproc: %s %s; references: gcc %s, clang %s %s' % (sc.kind, sc.diag, g.kind, c.kind, (g.diag or c.diag)[:200]))]
         return [Verdict(sc.kind, 'status %s: %s' % (sc.status, sc.diag))]
-    g, c = run_ref(src, d, 'gcc', cs, name), run_ref(src, d, 'clang', cs, name)
+    g, c = run_ref(src, d, 'gcc', cs, name, n), run_ref(src, d, 'clang', cs, name, n)
     if g.kind == 'compile-fail' or c.kind == 'compile-fail':
         r = split()
         if r is not None:
